@@ -23,6 +23,41 @@ def _assign_chain(f: Func, var: str) -> List[ast.Assign]:
     return out
 
 
+def _returned_names(f: Func) -> Set[str]:
+    return {x.id for n in walk_no_nested(f.node) if isinstance(n, ast.Return) and n.value is not None for x in ast.walk(n.value) if isinstance(x, ast.Name)}
+
+
+def _resolve_acc(f: Func, acc: str) -> str:
+    if acc == "@returned":
+        # the accumulator the function hands back: the name returned by its last return statement
+        rets = [n for n in walk_no_nested(f.node) if isinstance(n, ast.Return) and isinstance(n.value, ast.Name)]
+        return rets[-1].value.id if rets else "in_state_bits"
+    if acc.startswith("@status."):
+        return _status_var(f) + "." + acc.split(".", 1)[1]
+    return acc
+
+
+def _status_var(f: Func) -> str:
+    """the local (or parameter) holding the statement's status record"""
+    for n in walk_no_nested(f.node):
+        if isinstance(n, ast.Assign) and isinstance(n.targets[0], ast.Name) and isinstance(n.value, ast.Subscript) \
+                and isinstance(n.value.value, ast.Attribute) and n.value.value.attr == "stmt_id_to_status":
+            return n.targets[0].id
+    return "status"
+
+
+def _is_attr(e, base: str, attr: str) -> bool:
+    return isinstance(e, ast.Attribute) and e.attr == attr and isinstance(e.value, ast.Name) and e.value.id == base
+
+
+def _acc_matches(target, acc: str) -> bool:
+    """acc is either a local name or '<status>.attr'"""
+    if "." in acc:
+        b, a = acc.split(".", 1)
+        return _is_attr(target, b, a)
+    return isinstance(target, ast.Name) and target.id == acc
+
+
 def run(model: RepoModel, rep, tier: str):
     rep.not_decided = ("exactness of the solution on loop-free code, soundness under the bounded-round schedule, correctness of the "
                        "CFG the solution is computed over (see C04)")
@@ -110,40 +145,49 @@ def run(model: RepoModel, rep, tier: str):
         raise AnalysisError("analyze_reachable_symbols vanished")
     # working set is a copy of the in-set, threaded through the transfer function, stored as the out-set
     key = f"{PS}::analyze_reachable_symbols::working set"
-    chain = _assign_chain(ar, "current_bits")
+    ST = _status_var(ar)
+    work = next((n.targets[0].id for n in walk_no_nested(ar.node) if isinstance(n, ast.Assign) and isinstance(n.targets[0], ast.Name)
+                 and isinstance(n.value, ast.Call) and isinstance(n.value.func, ast.Attribute) and n.value.func.attr == "copy"
+                 and _is_attr(n.value.func.value, ST, "in_symbol_bits")), None)
+    if work is None:     # fall back: whatever is stored as the out-set
+        work = next((n.value.id for n in walk_no_nested(ar.node) if isinstance(n, ast.Assign) and _is_attr(n.targets[0], ST, "out_symbol_bits")
+                     and isinstance(n.value, ast.Name)), "current_bits")
+    chain = _assign_chain(ar, work)
     probs = []
     if not chain:
         probs.append("no working set")
     else:
         first = chain[0].value
-        if not (isinstance(first, ast.Call) and isinstance(first.func, ast.Attribute) and first.func.attr == "copy" and dotted(first.func.value) == "status.in_symbol_bits"):
+        if not (isinstance(first, ast.Call) and isinstance(first.func, ast.Attribute) and first.func.attr == "copy" and _is_attr(first.func.value, ST, "in_symbol_bits")):
             probs.append(f"the working set is `{norm(first)}`, not a copy of status.in_symbol_bits: kill/gen mutate sets in place, so the "
                          f"statement's own kills and gens show up in its in-set (and in every set aliased with it)")
         if not any(isinstance(c.value, ast.Call) and is_self_attr(c.value.func, "update_current_symbol_bit") and any(
-                isinstance(a, ast.Name) and a.id == "current_bits" for a in c.value.args) for c in chain[1:]):
+                isinstance(a, ast.Name) and a.id == work for a in c.value.args) for c in chain[1:]):
             probs.append("the transfer function's result is not bound back to the working set")
-    outs = [n for n in walk_no_nested(ar.node) if isinstance(n, ast.Assign) and dotted(n.targets[0]) == "status.out_symbol_bits"]
-    if not (outs and all(isinstance(o.value, ast.Name) and o.value.id == "current_bits" for o in outs)):
+    outs = [n for n in walk_no_nested(ar.node) if isinstance(n, ast.Assign) and _is_attr(n.targets[0], ST, "out_symbol_bits")]
+    if not (outs and all(isinstance(o.value, ast.Name) and o.value.id == work for o in outs)):
         probs.append("status.out_symbol_bits is not assigned the working set")
     (rep.violation if probs else rep.holds)("C06.R1", key, PS, ar.node.lineno,
                                             ("analyze_reachable_symbols: " + "; ".join(probs)) if probs else
                                             "current_bits = in.copy(); current_bits = transfer(...); out = current_bits")
     # every defined symbol (explicit + implicit) goes through the transfer function
     key = f"{PS}::analyze_reachable_symbols::all defined symbols generated"
-    ok = any(isinstance(n, ast.Assign) and "status.defined_symbol" in norm(n.value) and "implicitly_defined_symbols" in norm(n.value) for n in walk_no_nested(ar.node))
+    ok = any(isinstance(n, ast.Assign) and any(_is_attr(x, ST, "defined_symbol") for x in ast.walk(n.value))
+             and any(_is_attr(x, ST, "implicitly_defined_symbols") for x in ast.walk(n.value)) for n in walk_no_nested(ar.node))
     (rep.holds if ok else rep.violation)("C06.R1", key, PS, ar.node.lineno,
                                          "[status.defined_symbol] + status.implicitly_defined_symbols" if ok else
                                          "not every symbol the statement defines is generated")
 
     # ------------------------------------------------------------------ R2
-    for fname, acc, src in (("analyze_reachable_symbols", "status.in_symbol_bits", "out_symbol_bits"),
-                            ("collect_in_state_bits", "in_state_bits", "out_state_bits")):
+    for fname, acc, src in (("analyze_reachable_symbols", "@status.in_symbol_bits", "out_symbol_bits"),
+                            ("collect_in_state_bits", "@returned", "out_state_bits")):
         f = p2.methods.get(fname)
         if f is None:
             raise AnalysisError(f"{fname} vanished")
+        acc = _resolve_acc(f, acc)
         key = f"{PS}::{fname}::merge"
-        inits = [n for n in walk_no_nested(f.node) if isinstance(n, ast.Assign) and dotted(n.targets[0]) == acc]
-        unions = [n for n in walk_no_nested(f.node) if isinstance(n, ast.AugAssign) and dotted(n.target) == acc]
+        inits = [n for n in walk_no_nested(f.node) if isinstance(n, ast.Assign) and _acc_matches(n.targets[0], acc)]
+        unions = [n for n in walk_no_nested(f.node) if isinstance(n, ast.AugAssign) and _acc_matches(n.target, acc)]
         probs = []
         if not (inits and isinstance(inits[0].value, ast.Call) and call_name(inits[0].value) == "set" and not inits[0].value.args):
             probs.append(f"`{acc}` does not start as the empty set")
@@ -157,7 +201,22 @@ def run(model: RepoModel, rep, tier: str):
                 probs.append(f"the merged value is `{norm(u.value)}`, not the predecessor's {src}")
             # inside a loop over the (retained) predecessors
             lp = [l for l in walk_no_nested(f.node) if isinstance(l, ast.For) and any(x is u for x in ast.walk(l))]
-            if not lp or "parent" not in norm(lp[-1].iter):
+            pred_vars = set()
+            for _ in range(3):
+                for a_ in walk_no_nested(f.node):
+                    if isinstance(a_, ast.Assign) and isinstance(a_.targets[0], ast.Name):
+                        if isinstance(a_.value, ast.Call) and (call_name(a_.value) or "").endswith("graph_predecessors"):
+                            pred_vars.add(a_.targets[0].id)
+                        elif isinstance(a_.value, ast.Name) and a_.value.id in pred_vars:
+                            pred_vars.add(a_.targets[0].id)
+                        elif isinstance(a_.value, ast.List) and not a_.value.elts:
+                            # a filtered copy: appended with elements drawn from a predecessor list
+                            for l_ in walk_no_nested(f.node):
+                                if isinstance(l_, ast.For) and isinstance(l_.iter, ast.Name) and l_.iter.id in pred_vars and any(
+                                        isinstance(c_, ast.Call) and isinstance(c_.func, ast.Attribute) and c_.func.attr == "append"
+                                        and isinstance(c_.func.value, ast.Name) and c_.func.value.id == a_.targets[0].id for c_ in ast.walk(l_)):
+                                    pred_vars.add(a_.targets[0].id)
+            if not lp or not (isinstance(lp[-1].iter, ast.Name) and lp[-1].iter.id in pred_vars):
                 probs.append("the union is not taken over the predecessor statements")
         (rep.violation if probs else rep.holds)("C06.R2", key, PS, f.node.lineno,
                                                 (f"{fname}: " + "; ".join(probs)) if probs else f"{acc} = set(); for each predecessor: {acc} |= pred.{src}")
@@ -184,7 +243,7 @@ def run(model: RepoModel, rep, tier: str):
     returned_only = set()
     for n in walk_no_nested(dl.node):
         if isinstance(n, ast.Call) and isinstance(n.func, ast.Attribute) and n.func.attr == "append" and n.args and isinstance(n.args[0], ast.Call) \
-                and call_name(n.args[0]) == "CFGNode" and isinstance(n.func.value, ast.Name) and n.func.value.id == "result":
+                and call_name(n.args[0]) == "CFGNode" and isinstance(n.func.value, ast.Name) and n.func.value.id in _returned_names(dl):
             returned_only.add((dotted(n.args[0].args[1]) or "").split(".")[-1])
     for k in returned_only:
         produced[k] = "deal_with_last_stmts_of_loop_body returns it as the inner loop's exit; it keeps that kind when an enclosing loop closes over it"
@@ -201,8 +260,10 @@ def run(model: RepoModel, rep, tier: str):
     accepted: Set[str] = set()
     for fname in ("analyze_reachable_symbols", "collect_in_state_bits"):
         f = p2.methods[fname]
+        weight_vars = {a_.targets[0].id for a_ in walk_no_nested(f.node) if isinstance(a_, ast.Assign) and isinstance(a_.targets[0], ast.Name)
+                       and isinstance(a_.value, ast.Call) and (call_name(a_.value) or "").endswith("get_graph_edge_weight")}
         for n in walk_no_nested(f.node):
-            if isinstance(n, ast.Compare) and isinstance(n.left, ast.Name) and "weight" in n.left.id and isinstance(n.ops[0], (ast.Eq, ast.In)):
+            if isinstance(n, ast.Compare) and isinstance(n.left, ast.Name) and n.left.id in weight_vars and isinstance(n.ops[0], (ast.Eq, ast.In)):
                 for c in n.comparators:
                     for x in ast.walk(c):
                         d = dotted(x) if isinstance(x, ast.Attribute) else None
@@ -361,7 +422,7 @@ def _r5_change_propagation(model: RepoModel, rep, p2):
     calls = [c for c in walk_no_nested(ar.node) if isinstance(c, ast.Call) and (call_name(c) or "").endswith("update_symbols_if_changed")]
     if not calls:
         raise AnalysisError("analyze_reachable_symbols no longer calls update_symbols_if_changed")
-    reset = [n for n in walk_no_nested(ar.node) if isinstance(n, ast.Assign) and dotted(n.targets[0]) == "status.in_symbol_bits"]
+    reset = [n for n in walk_no_nested(ar.node) if isinstance(n, ast.Assign) and isinstance(n.targets[0], ast.Attribute) and n.targets[0].attr == "in_symbol_bits"]
     for i, c in enumerate(calls):
         key = f"{PS}::analyze_reachable_symbols::call #{i + 1} hands in the sets captured before the merge"
         a_in = c.args[idx_in] if len(c.args) > idx_in else None
@@ -491,6 +552,7 @@ def check_merge_fresh(model: RepoModel, rep, RID: str, fname: str, acc: str, src
     f = p2.methods.get(fname)
     if f is None:
         raise AnalysisError(f"{fname} vanished")
+    acc = _resolve_acc(f, acc)
     key = f"{PS}::{fname}::the merged set is a fresh object on every path"
     bad = []
 
@@ -501,7 +563,7 @@ def check_merge_fresh(model: RepoModel, rep, RID: str, fname: str, acc: str, src
     for n in walk_no_nested(f.node):
         if isinstance(n, ast.Return) and n.value is not None and stored(n.value):
             bad.append((n, f"`{norm(n)}` returns a predecessor's stored {src} itself"))
-        if isinstance(n, ast.Assign) and dotted(n.targets[0]) == acc and stored(n.value):
+        if isinstance(n, ast.Assign) and _acc_matches(n.targets[0], acc) and stored(n.value):
             bad.append((n, f"`{norm(n)}` makes the in-set the very object stored as a predecessor's {src}"))
     if bad:
         n, what = bad[0]
